@@ -58,6 +58,15 @@ func wordCells() []wordCoef {
 			}
 		}
 	}
+	// family C: the remainder by 10^19 (one 64-bit word) has its low 32 bits zero -- a test on a narrowed remainder
+	// (uint32(rem) != 0) forgets it; with and without a guard digit in front
+	for l := 100; l < 104; l++ {
+		for d := 0; d < 3; d++ {
+			for gd := 0; gd < 2; gd++ { // the digit above the block: 0, or 5 below an even digit
+				out = append(out, wordCoef{k: 19, l: l, famB: true, hDrawn: gd == 1, c: big.NewInt(int64(d))})
+			}
+		}
+	}
 	return out
 }
 
@@ -65,6 +74,35 @@ func wordCells() []wordCoef {
 func (g *Gen) wordRealise(w wordCoef) *big.Int {
 	two64 := new(big.Int).Lsh(big.NewInt(1), 64)
 	cls := int(w.c.Int64())
+	if w.l >= 100 {
+		var r *big.Int
+		switch w.l {
+		case 100:
+			r = new(big.Int).Lsh(big.NewInt(1), 32)
+		case 101:
+			r = new(big.Int).Lsh(big.NewInt(int64(1+g.r.Intn(200000000))), 32)
+		case 102:
+			r = new(big.Int).Lsh(big.NewInt(1), 48)
+		default:
+			r = new(big.Int).Lsh(big.NewInt(int64(1+g.r.Intn(1<<16))), 40)
+		}
+		d := []int64{0, 5, 9}[cls]
+		c := new(big.Int).Add(new(big.Int).Mul(big.NewInt(d), pow10(18)), r)
+		q := randDigits(g.r, 1+g.r.Intn(15))
+		if g.r.Intn(3) == 0 {
+			q = big.NewInt(1)
+		}
+		// the digit above the block is 0, or 5 below an even digit: a cut one place higher sees an exact value or a tie to even
+		// but for the block
+		q.Sub(q, new(big.Int).Mod(q, big.NewInt(100)))
+		q.Add(q, big.NewInt(int64(20*g.r.Intn(5))))
+		if w.hDrawn {
+			q.Add(q, big.NewInt(5))
+		} else if q.Sign() == 0 {
+			q = big.NewInt(int64(10 * (1 + g.r.Intn(9))))
+		}
+		return c.Add(c, new(big.Int).Mul(q, pow10(19)))
+	}
 	if !w.famB {
 		// h such that W * 10^k stays a legal coefficient
 		maxH := new(big.Int).Div(new(big.Int).Div(cMax, pow10(w.k)), two64)
